@@ -275,7 +275,9 @@ public:
     /// element is found, past-the-end (see end()) iterator is returned.
     [[nodiscard]] constexpr auto find(key_type const& key) noexcept -> iterator
     {
-        return etl::find(begin(), end(), key);
+        auto comp = key_compare();
+        auto it   = etl::lower_bound(begin(), end(), key, comp);
+        return (it != end() && !comp(key, *it)) ? it : end();
     }
 
     /// \brief Finds an element with key equivalent to key.
@@ -284,7 +286,9 @@ public:
     /// element is found, past-the-end (see end()) iterator is returned.
     [[nodiscard]] constexpr auto find(key_type const& key) const noexcept -> const_iterator
     {
-        return etl::find(begin(), end(), key);
+        auto comp = key_compare();
+        auto it   = etl::lower_bound(begin(), end(), key, comp);
+        return (it != end() && !comp(key, *it)) ? it : end();
     }
 
     /// \brief Finds an element with key that compares equivalent to the value
